@@ -97,6 +97,9 @@ type vStored struct {
 	Name  string `json:"name"`
 	Ref   *vRef  `json:"ref"`
 	Phase string `json:"phase"`
+	// the stored Rollout is being deleted (its finalizer is still pending: the controller is finalising it) - it still
+	// drives its workload, so it still conflicts; invisible to the model, which never looks at it
+	Deleting bool `json:"deleting,omitempty"`
 }
 
 type vIn struct {
@@ -403,6 +406,10 @@ func storeObjects(version string, store []vStored) []client.Object {
 				r.Spec.ObjectRef.WorkloadRef = &v1alpha1.WorkloadRef{APIVersion: s.Ref.APIVersion, Kind: s.Ref.Kind, Name: s.Ref.Name}
 			}
 			r.Status.Phase = v1alpha1.RolloutPhase(s.Phase)
+			if s.Deleting {
+				now := metav1.Now()
+				r.DeletionTimestamp, r.Finalizers = &now, []string{"rollouts.kruise.io/rollout"}
+			}
 			objs = append(objs, r)
 		} else {
 			r := &v1beta1.Rollout{ObjectMeta: metav1.ObjectMeta{Namespace: s.NS, Name: s.Name}}
@@ -410,6 +417,10 @@ func storeObjects(version string, store []vStored) []client.Object {
 				r.Spec.WorkloadRef = v1beta1.ObjectRef{APIVersion: s.Ref.APIVersion, Kind: s.Ref.Kind, Name: s.Ref.Name}
 			}
 			r.Status.Phase = v1beta1.RolloutPhase(s.Phase)
+			if s.Deleting {
+				now := metav1.Now()
+				r.DeletionTimestamp, r.Finalizers = &now, []string{"rollouts.kruise.io/rollout"}
+			}
 			objs = append(objs, r)
 		}
 	}
@@ -946,7 +957,7 @@ func genStore(c *Ctx, in *vIn) {
 	}
 	n := c.Rng.Intn(4)
 	for i := 0; i < n; i++ {
-		s := vStored{NS: pick(c, []string{"ns1", "ns1", "ns2"}), Name: pick(c, []string{"r1", "r2", "r3", "r4", "r5"}), Phase: pick(c, vPhases)}
+		s := vStored{NS: pick(c, []string{"ns1", "ns1", "ns2"}), Name: pick(c, []string{"r1", "r2", "r3", "r4", "r5"}), Phase: pick(c, vPhases), Deleting: c.Rng.Intn(3) == 0}
 		if seen[s.NS+"/"+s.Name] {
 			continue
 		}
